@@ -78,6 +78,9 @@ SEEDS = {
  "C16d": dict(property="C16", needs="wrapped object (or instances of a wrapped class) defining __slots__ without __getstate__ + an enclosing plain pickler using protocol 0 or 1: the payload is now cloudpickled with the outer protocol"),
  "C17d": dict(property="C17", needs="cpu_count(only_physical_cores=True) first called without any limit below the OS count (probe cached), then a limit imposed (LOKY_MAX_CPU_COUNT, affinity, cgroup) and the call repeated: the new fast path returns the cached physical count before any limit is evaluated"),
  "C18d": dict(property="C18", needs="executor / LokyProcess created with a non-empty env= mapping, a variable of the parent's environment changed or deleted after the first spawn, then another spawn (respawn, resize): the overlay is merged in place into the caller's dict, later workers get a stale snapshot"),
+ "C02d": dict(property="C02", needs="a worker dies holding processes_management_lock (idle-timeout path) while the manager thread is busy (done-callback): the manager now takes that lock before collecting the sentinels and never sees the death"),
+ "C19d": dict(property="C19", needs="an executor constructed at depth == LOKY_MAX_DEPTH (or at depth >= 1 under fork) without submitting in the same try: the depth check moved from the constructor to the spawn site, creation succeeds and the first submit raises"),
+ "C20d": dict(property="C20", needs="kill-type lifecycle while the feeder thread is blocked writing a large task into a full call-queue pipe: the kill flag is reset once honoured, join_executor_internals then skips closing the reader end (the F21 repair), feeder thread + 2 fds + 3 semaphores leak per lifecycle"),
  "C20b": dict(property="C20", needs="kill-type lifecycle + worker with descendants one of which vanishes during the kill: kill_process_tree returns early, the worker is neither killed nor joined (child, fd, semaphore accumulate)"),
 }
 DETECTED = json.load(open(os.path.join(ROOT, "seeded", "detected.json"))) if os.path.exists(os.path.join(ROOT, "seeded", "detected.json")) else {}
